@@ -23,6 +23,11 @@ class Unsupported(Exception):
         super().__init__('unsupported: %s @L%s' % (msg, line))
 
 
+class RestartFunction(Unsupported):
+    """The exploration of the current function has to start again (a loop body emitted events that the cut had not summarised;
+    they are summarised from now on)."""
+
+
 class PathEnd(Exception):
     """The current path is abandoned (assumption made it dead, or the loop body was closed)."""
 
@@ -1132,6 +1137,9 @@ class Interp:
         raise Unsupported('ordering of %r and %r' % (a, b), node)
 
     def contains(self, container, item, node):
+        if isinstance(container, VOpaque) and container.label == 'missing':
+            # the argument of an event that does not exist on this path: no information (the clause must pin n_events)
+            return self.fresh_bool('missing_in')
         container = self.unwrap(container, node)
         if isinstance(container, VTuple) or (self.is_list(container) and isinstance(self.cell(container).content, list)):
             items = container.items if isinstance(container, VTuple) else self.cell(container).content
@@ -1147,6 +1155,11 @@ class Interp:
             return self.ctx.dict_has(self, container, item, node)
         s = self._as_seq_or_none(container)
         if s is not None:
+            if self._known_empty(s):
+                return z3.BoolVal(False)
+            if isinstance(item, VOpt) and s.th is T.SeqO:
+                # an optional value looked up in a list of objects: None is a possible element, no case split needed
+                return self.ctx.seq_contains(s.th, s.t, self.ctx.obj_term(self, item, node))
             item = self.unwrap(item, node)
             if s.th is T.SeqI and s.kind == 'str':
                 if isinstance(item, VSeq):
